@@ -168,7 +168,7 @@ def expected_emit(text):
     return gen.SYNONYMS.get(low, low)
 
 
-NAMES = ['dl', 'dw_', 'cl', 'pr']   # defined by the tool's prelude: data (byte), data (word), code label, procedure
+NAMES = ['vb', 'vw', 'lc', 'pr']   # defined by the tool's prelude: data (byte), data (word), code label, procedure
 
 
 def instantiate(shape, variant, name_choice):
@@ -221,7 +221,7 @@ def observe(tool, root, shape):
     """run the real assembler on two instantiations; -> template dict or {'rejected': reason}"""
     is_data = root in ('set_directive', 'db_directive', 'dw_directive')
     has_name = any(a[0] == 'name' for a in shape)
-    for nm in (NAMES if has_name else ['dl']):
+    for nm in (NAMES if has_name else ['vb']):
         runs = []
         for variant in (0, 1):
             toks, slots = instantiate(shape, variant, nm)
@@ -437,7 +437,7 @@ def concretize(shape, slots, model, svars, name):
             v = model[svars[si]].as_long() if model[svars[si]] is not None else 0
             toks.append(str(v))
         elif a[0] == 'name':
-            toks.append(name or 'dl')
+            toks.append(name or 'vb')
         elif a[0] == 'str':
             toks.append('"Az"')
         elif a[0] == 'label':
@@ -739,8 +739,8 @@ def invalid_shapes(z3, asm, a_shapes, tool, res, known):
         # a derivation exists; does the real assembler accept an instance?  (width-mixing shapes may be
         # derivable but refused by a semantic action, e.g. IN/OUT)
         accepted = []
-        for sh in shs[:40]:
-            toks, _ = instantiate(sh, 0, 'dl')
+        for sh in shs:
+            toks, _ = instantiate(sh, 0, 'vb')
             r = tool.ask('A', ' '.join(toks))
             if r[0] == 'OK':
                 accepted.append(' '.join(toks))
